@@ -35,6 +35,20 @@ func runC03(g Glue, j *Job, res *JobResult) {
 	}
 	var dg uint64 = 14695981039346656037
 
+	if j.NoExpect {
+		p, l := fresh()
+		o := e.runParse(p, l, j.In, nil, sess, nil)
+		res.Evals++
+		dg = digestAdd(dg, o.String())
+		if o.Panic == "" && o.ErrNil {
+			res.Stats["recovered-parse-judged"]++
+			if len(o.Problems) > 0 {
+				viol("attribute-identity", 0, "Parse succeeded (after error recovery) but %s", strings.Join(o.Problems, "; "))
+			}
+		}
+		res.Digest = fmt.Sprintf("%016x", dg)
+		return
+	}
 	// --- fault-free configuration ---
 	p, l := fresh()
 	var usage *Fault
